@@ -46,8 +46,15 @@ def _run_one(pid, m, repo, tier):
             env = dict(os.environ)
             env['PYVC_EVIDENCE_DIR'] = os.path.join(tmp, 'evidence')
             env['PYVC_REPLAY_DIR'] = os.path.join(tmp, 'replay')
-            p = subprocess.run([os.path.join(VERIF, 'check'), pid, '--tier', tier, '--repo', dst, '--procs', '8'],
-                               capture_output=True, text=True, env=env, timeout=3600)
+            try:
+                p = subprocess.run([os.path.join(VERIF, 'check'), pid, '--tier', tier, '--repo', dst, '--procs', '8'],
+                                   capture_output=True, text=True, env=env, timeout=int(os.environ.get('PYVC_MUT_TIMEOUT', '2400')))
+            except subprocess.TimeoutExpired:
+                subprocess.run(['pkill', '-f', dst], capture_output=True)
+                results.append({'name': m['name'], 'expect': m.get('expect', 'caught'), 'status': 'undecided(timeout)', 'exit': None,
+                                'wall_s': round(time.time() - t0, 1), 'lines': []})
+                print(json.dumps(results[-1]), flush=True)
+                continue
             lines = [l for l in p.stdout.split('\n') if l.startswith(('VIOLATION', 'UNDECIDED', 'CHECKER', 'OK', '  obligation'))]
             exp = m.get('expect', 'caught')
             if exp == 'caught':
@@ -56,6 +63,7 @@ def _run_one(pid, m, repo, tier):
                 status = 'verified' if p.returncode == 0 else 'false-alarm(%d)' % p.returncode
             results.append({'name': m['name'], 'expect': exp, 'status': status, 'exit': p.returncode,
                             'wall_s': round(time.time() - t0, 1), 'lines': lines[:6]})
+            print(json.dumps(results[-1]), flush=True)
         finally:
             shutil.rmtree(tmp, ignore_errors=True)
     return results
@@ -78,7 +86,5 @@ if __name__ == '__main__':
         mod = importlib.import_module('mutants.' + pid)
         ms = [m for m in mod.MUTANTS if not sel or m['name'] in sel]
         out = run_mutants(pid, ms)
-    for r in out:
-        print(json.dumps(r))
     bad = [r for r in out if r['status'] not in ('caught', 'verified', 'not-applicable')]
     print('mutants=%d ok=%d bad=%d' % (len(out), len(out) - len(bad), len(bad)))
